@@ -100,6 +100,10 @@ def generate(rng, families=("trio",), unrelated=0, n_contigs=(1, 2), n_variants=
             records.append(dict(chrom=chrom, pos=pos, id=".", ref=ref, alts=[alt], qual=".", filter="PASS", info=[], format=["GT"], calls=calls, kind="snv"))
             pos += rng.randint(1, 80)
     sc = dict(contigs=contigs, samples=order, defs={"INFO": {}, "FORMAT": {"GT": V.STD_FORMAT["GT"]}, "FILTER": []}, extra_header=[], records=records)
+    # the order of PED lines carries no meaning for the properties; `trios` is returned in PED order (the order in which whatshap numbers the
+    # transmission bits of a family)
+    trios = list(trios)
+    rng.shuffle(trios)
     ped_lines = []
     for (f, m, c) in trios:
         ped_lines.append("%s %s %s %s 0 1" % (c[:2], c, f, m))
